@@ -482,10 +482,13 @@ class WorkTree:
                 tree_entry = tree.lookup_path(
                     self._repo.object_store.__getitem__, tree_path
                 )
+                if stat.S_ISDIR(tree_entry[0]):
+                    # HEAD has a directory of that name, not a file
+                    raise KeyError(tree_path)
             except (KeyError, NotTreeError):
                 # if tree_entry didn't exist (possibly because a file sits
-                # where the path has a directory), this file was being added,
-                # so remove index entry
+                # where the path has a directory, or the other way round),
+                # this file was being added, so remove index entry
                 try:
                     del index[tree_path]
                     continue
@@ -495,7 +498,7 @@ class WorkTree:
             st = None
             try:
                 st = os.lstat(os.path.join(self.path, fs_path))
-            except FileNotFoundError:
+            except (FileNotFoundError, NotADirectoryError):
                 pass
 
             blob_obj = self._repo[tree_entry[1]]
